@@ -2,8 +2,8 @@
     The unit theorems are stated on Gen_C20_Units.v, which tools/units2v.py regenerates from
     src/Natural_Units.cpp on every run. *)
 From Coq Require Import String.
-From Coq Require Import ZArith Reals List.
-From LP Require Import Num NumR C20_Model C20_Proofs_Init Gen_C20_Units C20_Proofs_Units C20_Proofs_IO C20_Proofs_Round.
+From Coq Require Import ZArith Bool Reals List.
+From LP Require Import Num NumR C20_Model C20_Proofs_Init Gen_C20_Units C20_Proofs_Units C20_Proofs_IO C20_Proofs_Round C20_Proofs_Session.
 Import ListNotations.
 
 (** "whichever compiler and optimisation level built the library": for ANY classification [st] of the
@@ -184,3 +184,104 @@ Theorem C20_reduced_mass (m1 m2 : R) :
    (0 < reduced_mass ROps m1 m2 /\ reduced_mass ROps m1 m2 < m1 /\ reduced_mass ROps m1 m2 < m2)%R).
 Proof. exact (conj (reduced_mass_sym m1 m2) (reduced_mass_below m1 m2)). Qed.
 Print Assumptions C20_reduced_mass.
+
+(** ---------------------------------------------------------------------------------------------------------
+    Fourth pass: the readers on ARBITRARY files, the guards, Export_Function over a range, and sessions of calls. *)
+
+(** Export_List / Import_List for every number type (IEEE doubles included): the values read back, entry by entry, and
+    Count_Lines = header lines + values (the empty list included). *)
+Theorem C20_list_roundtrip_shape {T} (Ops : NumOps T) (fmt6 : T -> T) (header : list (@line T)) (data : list T) (dim : T) :
+  (Z.of_nat (length header + length data) < 4294967296)%Z ->
+  roundtrip_list Ops fmt6 header data dim = Ok (map (fun x => nmul Ops (fmt6 (ndiv Ops x dim)) dim) data) /\
+  count_lines (Some (export_list Ops fmt6 header data dim)) = Z.of_nat (length header + length data).
+Proof. exact (roundtrip_list_shape Ops fmt6 header data dim). Qed.
+Print Assumptions C20_list_roundtrip_shape.
+
+(** Export_Function(file, f, xMin, xMax, steps, units, logarithmic, header) then Import_Table: the grid has `steps` points
+    (one point when steps < 2 or xMin == xMax), Count_Lines = header lines + points, and the rows read back are
+    (x, f(x)) through the same format and units — for every number type, linear and logarithmic grids. *)
+Theorem C20_function_range_roundtrip {T} (Ops : NumOps T) (fmt6 : T -> T)
+    (header : list (@line T)) (func : T -> T) (mn mx : T) (steps : nat) (dims : list T) (lg : bool) :
+  dims = [] \/ length dims = 2%nat ->
+  (Z.of_nat (length header + Nat.max 1 steps) < 4294967296)%Z -> (Z.of_nat (Nat.max 1 steps * 2) < 4294967296)%Z ->
+  let xs := grid Ops mn mx steps lg in
+  (length xs = if (Nat.ltb steps 2) || neqb Ops mn mx then 1%nat else steps) /\
+  roundtrip_function_range Ops fmt6 header func mn mx steps dims lg =
+  Ok (Z.of_nat (length header + length xs), map (fun x => [back Ops fmt6 dims 0 x; back Ops fmt6 dims 1 (func x)]) xs).
+Proof. exact (roundtrip_function_range_eq Ops fmt6 header func mn mx steps dims lg). Qed.
+Print Assumptions C20_function_range_roundtrip.
+
+(** Import_Table on ANY file (written by Export_Table or not), any units, any number of ignored lines: whenever it
+    returns, there is at least one line after the ignored ones, every such line starts with exactly the same number
+    cols >= 1 of numbers, the units are none or one per column, and the answer is these numbers in reading order, one row
+    per line, each multiplied by its column's unit.  (Otherwise it terminates the process: the model has no third outcome.) *)
+Theorem C20_import_table_sound {T} (Ops : NumOps T) (fl : @file T) (dims : list T) (ign : nat) (t : list (list T)) :
+  (Z.of_nat (length fl) < 4294967296)%Z ->
+  (Z.of_nat (length (read_nums (after_header fl ign))) < 4294967296)%Z ->
+  import_table Ops (Some fl) dims ign = Ok t ->
+  let nums := read_nums (after_header fl ign) in
+  let rows := (length fl - ign)%nat in
+  exists cols : nat,
+    (1 <= rows)%nat /\ (1 <= cols)%nat /\ length nums = (rows * cols)%nat /\
+    Forall (fun l => length (read_nums l) = cols) (skipn ign fl) /\
+    (dims = [] \/ length dims = cols) /\
+    t = map (mapi_from 0 (fun j x => nmul Ops x (dim_at Ops dims j))) (chunks rows cols nums) /\
+    length t = rows /\ rect cols t /\ concat (chunks rows cols nums) = nums.
+Proof. exact (import_table_sound Ops fl dims ign t). Qed.
+Print Assumptions C20_import_table_sound.
+
+(** the guards: a file that cannot be opened terminates both readers (Count_Lines gives 0); no line after the ignored
+    ones, or no number, terminates Import_Table; a row whose length differs from the number of unit factors terminates
+    Export_Table *)
+Theorem C20_io_guards {T} (Ops : NumOps T) (fmt6 : T -> T) (dims : list T) (dim : T) (ign : nat) :
+  (import_table Ops None dims ign = Exit /\ import_list Ops None dim ign = Exit /\ count_lines (@None (@file T)) = 0%Z /\
+   (forall fl, (length fl <= ign)%nat -> (Z.of_nat (length fl) < 4294967296)%Z -> import_table Ops (Some fl) dims ign = Exit) /\
+   (forall fl, read_nums (after_header fl ign) = [] -> import_table Ops (Some fl) dims ign = Exit)) /\
+  (forall header data row, dims <> [] -> In row data -> length row <> length dims ->
+     export_table Ops fmt6 header data dims = Exit).
+Proof. exact (conj (import_guards Ops dims dim ign) (fun header data row => export_table_mismatch Ops fmt6 header data dims row)). Qed.
+Print Assumptions C20_io_guards.
+
+(** Sessions.  In ONE process: any calls [before] — exports to any path, the path p itself included, with longer or
+    shorter content or of the other kind; imports; line counts — that do not terminate the process, then Export_Table to
+    p, then any calls [between] that do not export to p, then Import_Table from p with the same units and the number of
+    header lines written, and Count_Lines: the two answers are those of the single round trip, whatever came before
+    (induction over both call sequences; the invariant is that a call not exporting to p leaves the file at p alone). *)
+Theorem C20_session_table_roundtrip {T} (Ops : NumOps T) (fmt6 : T -> T)
+    (fs : @fsys T) before fs1 outs1 p header tbl dims c between fs2 outs2 :
+  io_run Ops fmt6 fs before = Ok (fs1, outs1) ->
+  tbl <> [] -> (1 <= c)%nat -> rect c tbl -> dims = [] \/ length dims = c ->
+  (Z.of_nat (length header + length tbl) < 4294967296)%Z -> (Z.of_nat (length tbl * c) < 4294967296)%Z ->
+  forall fexp, export_table Ops fmt6 header tbl dims = Ok fexp ->
+  io_run Ops fmt6 (fs_put fs1 p fexp) between = Ok (fs2, outs2) ->
+  Forall (fun o => writes o <> Some p) between ->
+  io_run Ops fmt6 fs (before ++ OExportTable p header tbl dims :: between ++ [OImportTable p dims (length header); OCountLines p]) =
+  Ok (fs2, outs1 ++ RUnit :: outs2 ++ [RTable (map (mapi_from 0 (back Ops fmt6 dims)) tbl);
+                                        RCount (Z.of_nat (length header + length tbl))]).
+Proof. exact (session_table_roundtrip Ops fmt6 fs before fs1 outs1 p header tbl dims c between fs2 outs2). Qed.
+Print Assumptions C20_session_table_roundtrip.
+
+Theorem C20_session_list_roundtrip {T} (Ops : NumOps T) (fmt6 : T -> T)
+    (fs : @fsys T) before fs1 outs1 p header data dim between fs2 outs2 :
+  io_run Ops fmt6 fs before = Ok (fs1, outs1) ->
+  (Z.of_nat (length header + length data) < 4294967296)%Z ->
+  io_run Ops fmt6 (fs_put fs1 p (export_list Ops fmt6 header data dim)) between = Ok (fs2, outs2) ->
+  Forall (fun o => writes o <> Some p) between ->
+  io_run Ops fmt6 fs (before ++ OExportList p header data dim :: between ++ [OImportList p dim (length header); OCountLines p]) =
+  Ok (fs2, outs1 ++ RUnit :: outs2 ++ [RList (map (fun x => nmul Ops (fmt6 (ndiv Ops x dim)) dim) data);
+                                        RCount (Z.of_nat (length header + length data))]).
+Proof. exact (session_list_roundtrip Ops fmt6 fs before fs1 outs1 p header data dim between fs2 outs2). Qed.
+Print Assumptions C20_session_list_roundtrip.
+
+(** the invariant itself, and: a session that is not terminated answers every call *)
+Theorem C20_session_invariant {T} (Ops : NumOps T) (fmt6 : T -> T) (ops : list (@io_op T)) (fs fs' : @fsys T) outs :
+  io_run Ops fmt6 fs ops = Ok (fs', outs) ->
+  length outs = length ops /\
+  forall p, Forall (fun o => writes o <> Some p) ops -> fs_get fs' p = fs_get fs p.
+Proof. exact (fun H => conj (run_length Ops fmt6 ops fs fs' outs H) (fun p => run_preserves Ops fmt6 ops fs fs' outs p H)). Qed.
+Print Assumptions C20_session_invariant.
+
+(** non-vacuity: a 3 x 3 table is written to path 0 and read; then the (shorter) 1 x 2 table with a two-line header and two
+    units goes to the same path, a list goes to path 1 and is read, and the table read back from path 0 is the short one *)
+Example C20_session_example : session_example_stmt.
+Proof. exact session_example. Qed.
